@@ -145,11 +145,19 @@ class Recorder:
         self.m.silent = silent
         m, I, log = self.m, self.I, self.log
 
+        depth = [0]
+
         def wrap(kind, name, fn):
             def w(*args, **kwargs):
+                if depth[0] > 0:        # called from inside another primitive (e.g. max(..., key=abs))
+                    return fn(*args, **kwargs)
                 entry = [kind, name, [I.vid(a) for a in args], [(k, I.vid(v)) for k, v in kwargs.items()], None]
                 log.append(entry)
-                r = fn(*args, **kwargs)
+                depth[0] += 1
+                try:
+                    r = fn(*args, **kwargs)
+                finally:
+                    depth[0] -= 1
                 entry[4] = I.vid(r)
                 return r
             w._verif_name = name
